@@ -85,6 +85,7 @@ impl ConfigResolver<'_> {
                     Ok(self.default_configuration)
                 } else {
                     editorconfig::parse(self.default_configuration, path)
+                        .map(|config| load_overrides(config, self.opt))
                         .context("could not parse editorconfig")
                 }
                 #[cfg(not(feature = "editorconfig"))]
@@ -111,6 +112,7 @@ impl ConfigResolver<'_> {
                         Ok(self.default_configuration)
                     } else {
                         editorconfig::parse(self.default_configuration, &PathBuf::from("*.lua"))
+                            .map(|config| load_overrides(config, self.opt))
                             .context("could not parse editorconfig")
                     }
                     #[cfg(not(feature = "editorconfig"))]
